@@ -127,9 +127,11 @@ def run(ctx: Ctx, replay: str | None) -> None:
             ctx.violation(rec["key"], f["what"], p)
         return
     quick = ctx.tier == "quick"
-    mod = 96 if quick else 6
+    mod = 24 if quick else 6
     cfg = (SPEC_DIR / "MC_Backward_quick.cfg").read_text()
     cfg = cfg.replace("SampleMod = 48", f"SampleMod = {mod}").replace("SamplePick = 0", f"SamplePick = {(ctx.seed + 1) % mod}")
+    if quick:       # the twin identity does not depend on chunking or on pre-existing grads: smaller model in quick
+        cfg = cfg.replace("ChunkSizes = {0, 2}", "ChunkSizes = {0}").replace('PreModes = {"none", "all"}', 'PreModes = {"none"}')
     res = run_tlc("Backward", cfg_text=cfg, workers="auto", seed=ctx.seed, timeout=3000)
     ctx.add_tlc(res)
     if res.violated:
